@@ -406,6 +406,9 @@ impl Prop for C18 {
     fn id(&self) -> &'static str {
         "C18"
     }
+    fn supplement(&self, tier: Tier, seed: u64) -> (Vec<crate::world::Violation>, Value) {
+        super::common::msim_supplement("C18", "roundrobin", tier, seed)
+    }
     fn gen(&self, rng: &mut Rng, _t: Tier) -> Value {
         serde_json::to_value(gen(rng)).unwrap()
     }
